@@ -12,7 +12,9 @@ PID = "C02"
 LEVEL = "exploration"
 RULE = ("for every flavour x table entry (mnemonic): (a) walking-one / every-register valuations per field position "
         "with pairwise-distinct values in the other fields (a swap of like-typed operands changes the bytes), "
-        "(b) random valuations, (c) header sweeps, (d) random whole subroutines. Each case is encoded by the repo "
+        "(b) random valuations, (c) header sweeps, (d) random whole subroutines (re-encoded after in-place operand updates "
+        "and after an append), (e) four threads encoding subroutines of different applications at once (switch interval "
+        "1 us). Each case is encoded by the repo "
         "(bytes(Subroutine)) and by the reference encoder and compared byte for byte; the reference bytes are also "
         "decoded by the repo and compared with the case. Non-trivial = at least one instruction with an operand; "
         "distinct = distinct (flavour, header, instruction list).")
@@ -80,6 +82,10 @@ def cases(ctx):
                 if ctx.mine(k):
                     yield {"kind": "header", "flavour": flav, "version": ver, "app_id": app,
                            "instrs": [["set", [["C", 3], 0x01020304]]]}
+    if ctx.shard == 0:
+        for flav in ("vanilla", "nv"):
+            yield {"kind": "threaded", "flavour": flav, "threads": 4, "rounds": ctx.n(250, 5000), "version": [1, 0],
+                   "seed": rng.randrange(2**31)}
     for _ in range(ctx.n(200, 20000)):
         flav = rng.choice(["vanilla", "nv", "reids"])
         names = sorted(isa.TABLE[flav])
@@ -91,8 +97,50 @@ def cases(ctx):
                "app_id": rng.randrange(65536), "instrs": ins}
 
 
+def _threaded(ctx, case):
+    """One host thread per application is the normal threaded deployment: several threads encode subroutines (different
+    app ids, versions, programs) at the same time; each must get exactly the reference bytes of its own subroutine."""
+    import random
+    import sys
+    import threading
+    n, rounds, flav = case["threads"], case["rounds"], case["flavour"]
+    errors = []
+    names = sorted(isa.TABLE[flav])
+    old = sys.getswitchinterval()
+    sys.setswitchinterval(1e-6)
+    barrier = threading.Barrier(n)
+
+    def worker(t):
+        rng = random.Random(case["seed"] * 31 + t)
+        ver = [case["version"][0], case["version"][1]] if t % 2 else [t, 7]
+        barrier.wait()
+        for r in range(rounds):
+            ins = [[m, codec.rand_values(rng, isa.TABLE[flav][m][1])] for m in (rng.choice(names) for _ in range(rng.randrange(1, 25)))]
+            app = 257 * (t + 1) + (r % 7)
+            raw = bytes(codec.mk_subroutine(flav, ver, app, ins))
+            ref = isa.encode_subroutine(flav, ver, app, ins)
+            if raw != ref:
+                where = f"header {raw[:4].hex()} instead of {ref[:4].hex()}" if raw[:4] != ref[:4] else "an instruction"
+                errors.append(f"thread {t} (app {app}, version {ver}) round {r}: {where}")
+                return
+    try:
+        ths = [threading.Thread(target=worker, args=(t,)) for t in range(n)]
+        for th in ths:
+            th.start()
+        for th in ths:
+            th.join(120)
+    finally:
+        sys.setswitchinterval(old)
+    ctx.count("threaded_encodings", n * rounds)
+    if errors:
+        ctx.fail(case, f"{flav}: subroutines of different applications encoded concurrently pick up each other's bytes: " + errors[0])
+    ctx.case(case, True)
+
+
 def run_case(ctx, case):
     from netqasm.lang.parsing import deserialize
+    if case["kind"] == "threaded":
+        return _threaded(ctx, case)
     flav = case["flavour"]
     fobj = codec.flavour_obj(flav)
     ref = isa.encode_subroutine(flav, case["version"], case["app_id"], case["instrs"])
@@ -131,20 +179,21 @@ def run_case(ctx, case):
     elif case["kind"] == "sequence" and case["instrs"]:
         # the wire bytes of a Subroutine object are those of its *current* content: update operands / the list in place
         # after the first encoding and compare with the reference encoding of the updated program
-        import dataclasses
         rng = ctx.rng
         instrs2 = [[m, codec.rand_values(rng, isa.TABLE[flav][m][1])] for m, _ in case["instrs"]]
         for obj, (m, v) in zip(sub.instructions, instrs2):
-            donor = codec.mk_instr(fobj, flav, m, v)
-            for f in dataclasses.fields(obj):
-                if f.name not in ("id", "mnemonic", "lineno"):
-                    setattr(obj, f.name, getattr(donor, f.name))
+            codec.edit_in_place(obj, codec.mk_instr(fobj, flav, m, v))
+        ctx.count("reencodings_after_update")
+        # same instruction count, operands updated in place (what the NV transpiler and template filling do)
+        ref2 = isa.encode_subroutine(flav, case["version"], case["app_id"], instrs2)
+        if bytes(sub) != ref2:
+            ctx.fail(case, f"{flav}: after operands were updated in place, bytes(Subroutine) is not the reference encoding of "
+                           f"the updated program (stale encoding)")
         extra = rng.choice(sorted(isa.TABLE[flav]))
         ev = codec.rand_values(rng, isa.TABLE[flav][extra][1])
         sub.instructions.append(codec.mk_instr(fobj, flav, extra, ev))
-        ctx.count("reencodings_after_update")
-        ref2 = isa.encode_subroutine(flav, case["version"], case["app_id"], instrs2 + [[extra, ev]])
-        if bytes(sub) != ref2:
-            ctx.fail(case, f"{flav}: after operands were updated in place and an instruction appended, bytes(Subroutine) is not the "
+        ref3 = isa.encode_subroutine(flav, case["version"], case["app_id"], instrs2 + [[extra, ev]])
+        if bytes(sub) != ref3:
+            ctx.fail(case, f"{flav}: after an instruction was appended, bytes(Subroutine) is not the "
                            f"reference encoding of the updated program (stale encoding)")
     ctx.case(case, nontrivial)
